@@ -159,7 +159,7 @@ theorem fieldValue_append_of_not_mem (pre : List Field) (f : Field) (n : List Na
   have : pre.find? (fun g => g.1 == n) = none := by
     simp only [List.find?_eq_none, beq_iff_eq]
     intro g hg; exact h g hg
-  simp only [this, Option.none_or, List.find?_cons, List.find?_nil, beq_iff_eq]
+  simp only [this, Option.none_or, List.find?_cons, List.find?_nil]
   by_cases hf : f.1 = n
   · simp [hf]
   · have : (f.1 == n) = false := by simp [hf]
@@ -170,6 +170,6 @@ theorem fieldValue_append_of_ne (pre : List Field) (f : Field) (n : List Nat) (h
   simp only [fieldValue, Uquic.Spec.H3FieldsMon.fieldValue, List.find?_append]
   cases hp : pre.find? (fun g => g.1 == n) with
   | some g => simp
-  | none => simp [List.find?_cons, h]
+  | none => simp [h]
 
 end Uquic.Proofs.Fields
